@@ -19,13 +19,13 @@ import (
 )
 
 type canonizer struct {
-	ctx   *model.Context
-	ids   map[int]int // object number -> canonical id
-	lines []string    // one line per indirect object, in id order
-	skip  map[string]bool
-	err   error
+	ctx     *model.Context
+	ids     map[int]int // object number -> canonical id
+	lines   []string    // one line per indirect object, in id order
+	skip    map[string]bool
+	err     error
 	skipAll map[string]bool // keys left out of every dictionary
-	dang  map[int]bool // object numbers referenced but free or absent from the cross-reference table
+	dang    map[int]bool    // object numbers referenced but free or absent from the cross-reference table
 }
 
 func sha(b []byte) string {
